@@ -146,6 +146,8 @@ def run(plan):
             return False
         return True
 
+    dev.volunteered_props = [(pos, pid, bytes.fromhex(v)) for pos, pid, v in plan.get("volunteered", [])]
+
     async def main(w):
         ac = s.make_clients()[0]
         if s.version == 3:
@@ -388,7 +390,13 @@ def gen(j, rng):
     cfg = {"version": rng.choice([2, 2, 3]), "caps_pages": [[profile_caps(p), None]], "props": store}
     if rng.random() < 0.15:
         cfg["bystander"] = {"version": rng.choice([2, 3]), "period": rng.choice([0.11, 0.7]), "max_rounds": 25}
-    return {"config": cfg, "profile": p, "ops": ops}
+    cfg["state_len"] = rng.choice([24, 24, 22, 30, 46])           # units with the extended state report
+    plan = {"config": cfg, "profile": p, "ops": ops}
+    if rng.random() < 0.2:
+        # the unit volunteers properties this client knows of but does not use, anywhere in its replies
+        plan["volunteered"] = [[rng.randrange(8), rng.choice([0x0015, 0x004B, 0x021E, 0x0227, 0x0201]), rng.choice(["00", "01", "32"])]
+                               for _ in range(rng.randint(1, 2))]
+    return plan
 
 
 def space(tier):
